@@ -87,7 +87,8 @@ def run_seq(params, ch):
                 wrote = env.host_bytes - hb or env.write_calls - wc
                 created = sorted(os.listdir(tmpdir())) != files_before
                 if sym in EMPTY:
-                    if r[:2] != ('exc', 'DevicePathInvalidError'):
+                    ok_exc = ('DevicePathInvalidError',) if flag else ('DevicePathInvalidError', 'AdbConnectionError')   # both conditions hold: either is documented
+                    if r[0] != 'exc' or r[1] not in ok_exc:
                         viol.append({'msg': 'step %d %s (available=%s) gave %r, expected DevicePathInvalidError' % (i, sym, flag, r[:2])})
                     if wrote or created:
                         viol.append({'msg': 'step %d %s wrote to the transport or created a local file' % (i, sym)})
